@@ -53,9 +53,9 @@ extern const bool g_yield_build;
 
 // exact-size media blocks
 struct Block {
-    uint8_t *p = nullptr; size_t n = 0; uint8_t *base = nullptr; size_t total = 0; int mode = 0;
+    uint8_t *p = nullptr; size_t n = 0; uint8_t *base = nullptr; size_t total = 0; int mode = 0; size_t lead = 0;
 };
-Block block_alloc(size_t n, int guard_mode);     // guard_mode 0: exact malloc (ASan red zones) + canaries in plain builds; 1: PROT_NONE page after the block
+Block block_alloc(size_t n, int guard_mode, int lead = 0);     // guard_mode 0: exact malloc (ASan red zones) + canaries in plain builds; 1: PROT_NONE page after the block
 void block_free(Block &b);
 bool block_canary_ok(const Block &b);
 
@@ -88,12 +88,14 @@ struct PSession {
     binson_writer *ext_writer = nullptr; // optional long-lived writer for to_writer with op.c == 1 (owned by the engine)
     bool use_cb = true;                 // false: the application installs no token callback (the library's `cb == NULL` paths run; steps are then not counted)
     int guard_mode = 0;
+    int lead = 0;                       // the delivered buffer starts this many bytes (0..15) past an allocator boundary
     bool inited = false;                // at least one init call has been made (struct no longer pure garbage)
     bool dead = false;
     // monitors
     bool latched = false;
     uint32_t first_err = 0;
-    uint64_t cb_count = 0, budget = 0, total_cb = 0, steps = 0, calls = 0, post_error_calls = 0;
+    uint64_t cb_count = 0, park_count = 0, budget = 0, total_cb = 0, steps = 0, calls = 0, post_error_calls = 0;
+    size_t cb_last_used = 0;
     uint64_t max_slack = 0;
     sigjmp_buf jb;
     std::string tag;                    // task / phase tag prepended to events
